@@ -120,7 +120,7 @@
 #define B12_P377_Y0		"690D665D446F7BD960736BCBB2EFB4DE03ED7274B49A58E458C282F832D204F2CF88886D8C7C2EF094094409FD4DDF"
 #define B12_P377_Y1		"F8169FD28355189E549DA3151A70AA61EF11AC3D591BF12463B01ACEE304C24279B83F5E52270BD9A1CDD185EB8F93"
 #define B12_P377_R		"12AB655E9A2CA55660B44D1E5C37B00159AA76FED00000010A11800000000001"
-#define B12_P377_H		"26BA558AE9562ADDD88D99A6F6A829FBB36B00E1DCC40C8C505634FAE2E189D693E8C36676BD09A0F3622FBA094800452217CC8FFFFFFFFFFFFFFFFFFFFFFF"
+#define B12_P377_H		"26BA558AE9562ADDD88D99A6F6A829FBB36B00E1DCC40C8C505634FAE2E189D693E8C36676BD09A0F3622FBA094800452217CC900000000000000000000001"
 #define B12_P377_MAPU0	"1"
 #define B12_P377_MAPU1	"-1"
 /** @} */
